@@ -189,7 +189,7 @@ def run():
     uni, ust = common.tlc_eval_json("Dump_Universe", cfg="Dump_Universe_Q" if QUICK else "Dump_Universe_T")
     chk.add_tlc(ust)
     from harness.props.c03 import mutation_layers
-    for a in rng.sample(uni, 200 if QUICK else 12000):
+    for a in rng.sample(uni, min(len(uni), 200 if QUICK else 12000)):
         cases.append(drive(rng.choice(mutation_layers(a, rng, maxm=2)), rng))
     nuni = len(cases)
     for i in range(1200 if QUICK else 80000):
